@@ -371,13 +371,13 @@ def judge_and_report(chk: Check, cases: T.List[T.Dict[str, T.Any]], label: str, 
 
 # quick tier: every block kind once; (kind, variant) with variant None = seeded choice
 QUICK_PLAN = [[('hdr', 3), ('chain', None)], [('dep', None), ('script', 0), ('conf', 0)], [('gen', 1), ('ctlib', 0)],
-              [('tool', None), ('run', 0)], [('link', None)], [('subproj', None), ('hdr', None)]]
+              [('tool', None), ('run', 0)], [('link', None)], [('subproj', None), ('hdr', 4)]]
 
 
 def make_jobs(chk: Check, quick: bool) -> T.List[T.Dict[str, T.Any]]:
     cap = 60000 if quick else 150000
     jobs: T.List[T.Dict[str, T.Any]] = []
-    n_shape = int(os.environ.get('C05_SHAPES') or (len(QUICK_PLAN) if quick else 130))
+    n_shape = int(os.environ.get('C05_SHAPES') or (len(QUICK_PLAN) if quick else 110))
     n_overlay = int(os.environ.get('C05_OVERLAYS') or (1 if quick else 40))
     for k in range(n_shape):
         rnd = random.Random(chk.seed * 7919 + k)
